@@ -25,6 +25,16 @@ def analysis_key():
         h.update(open(p, "rb").read())
     return "e" + h.hexdigest()[:15]
 
+def coarse(okey):
+    """what an obligation is about, independent of how the operands are spelled: the names of the fields, parameters and methods involved
+    (`*P1(self).memory_usage_bytes ; Bytes::len(&removed.message)` -> `memory_usage_bytes,message,len`). Vetting is keyed on this, so moving an
+    expression into a temporary, a helper or an iterator chain does not turn a vetted internal invariant into a new report."""
+    names = set(re.findall(r"\.([a-z_][a-z_0-9]*)", okey)) | set(re.findall(r"P\d+\(([a-z_][a-z_0-9]*)\)", okey)) | set(re.findall(r"::([a-z_][a-z_0-9]*)\(", okey))
+    names -= {"deref", "deref_mut", "into_iter", "iter", "next", "branch", "unwrap", "expect", "new", "clone", "as_ref", "as_mut", "self", "index", "index_mut", "from", "into"}
+    consts = set(re.findall(r"(?<![\w.])(\d{2,})(?![\w.])", okey))
+    return ",".join(sorted(names)) + ("#" + ",".join(sorted(consts)) if consts else "")
+
+
 def kind_class(k):
     if k.startswith("overflow:"): return k
     return k.split(":")[0]
@@ -48,8 +58,9 @@ def _run_scope(facts_dir, scope, rounds, cache):
         okey = o["okey"]
         if kind_class(o["kind"]) == "panic": okey = okey.split(", &array")[0]     # an explicit panic is identified by its message, not by the formatted arguments
         key = f"{o['fn']}|{kind_class(o['kind'])}|{okey}"
-        e = sites.setdefault(key, dict(key=key, fn=o["fn"], kind=o["kind"], file=o["file"], line=o["line"], descr=o["descr"], ok=True, visits=0))
+        e = sites.setdefault(key, dict(key=key, ckey=f"{o['fn']}|{kind_class(o['kind'])}|{coarse(okey)}", fn=o["fn"], kind=o["kind"], file=o["file"], line=o["line"], descr=o["descr"], ok=True, visits=0, tainted=False))
         e["ok"] = e["ok"] and o["ok"]; e["visits"] += 1
+        e["tainted"] = e["tainted"] or bool(o.get("tainted", True))
         if not o["ok"]: e["descr"] = o["descr"]
     summ = {f"{short(k[0])}.{k[1]}.{k[2]}": repr(v) for k, v in eng.summ.items() if k[2] != "<exists>"}
     out = dict(scope=scope, wall_s=round(time.time() - t0, 1), sites=list(sites.values()), summaries=summ, unknown=dict(eng.unknown_callees.most_common(40)))
